@@ -552,7 +552,11 @@ def processLine (line : String) : String :=
     match line.splitOn " => " with
     | lhs :: _ =>
       match lhs.splitOn " " with
-      | op :: args =>
+      | op :: args0 =>
+        -- a trailing `tag:…` token classifies the case for the property predicates; the model ignores it
+        let args := match args0.getLast? with
+          | some t => if t.startsWith "tag:" then args0.dropLast else args0
+          | none => args0
         match handlers.lookup op with
         | none => lhs ++ " => unknown-op"
         | some h =>
